@@ -162,7 +162,7 @@ def main(argv=None):
 
     # ---- evidence
     nviol = sum(v for k, v in m["viol_counts"].items() if k not in known_keys)
-    if not a.replay:
+    if not a.replay and not os.environ.get("VERIF_EVIDENCE_OFF"):
         anchor_files = sorted({f for f, _ in getattr(mod, "ANCHORS", [])})
         cov_by_file = {}
         for f, ln in m["cov_lines"]:
@@ -213,6 +213,8 @@ def main(argv=None):
               % (prop, known_keys[k]["what"], k, m["viol_counts"].get(k, 0)))
     if unlisted:
         rdir = core.VERIF / "replay" / prop
+        if os.environ.get("VERIF_EVIDENCE_OFF"):
+            rdir = core.VERIF / "replay" / "_mutants" / prop
         rdir.mkdir(parents=True, exist_ok=True)
         for k, v in unlisted.items():
             path = rdir / (slug(k) + ".json")
